@@ -63,14 +63,13 @@ macro_rules! locktime_harness {
             } else if all_h {
                 match r { Ok(l) => assert!(l.is_block_height() && l.to_consensus_u32() == mh, "height preferred when every constraining input supports it"),
                           Err(e) => { core::mem::forget(e); assert!(false); } }
-                kani::cover!(all_t);
             } else if all_t {
                 match r { Ok(l) => assert!(l.is_block_time() && l.to_consensus_u32() == mt), Err(e) => { core::mem::forget(e); assert!(false); } }
-                kani::cover!(true);
             } else {
                 match r { Ok(_) => assert!(false), Err(e) => { assert!(matches!(e, Error::LocktimeConflict)); core::mem::forget(e); } }
-                kani::cover!(true);
             }
+            kani::cover!(any_c && all_h && all_t);
+            kani::cover!(any_c && !all_h && all_t);
         }
     };
 }
